@@ -27,7 +27,9 @@ from .pathfs import Audit, kernel_target, under
 class Workspace:
     """<ws>/wh/tbl (root), <ws>/wh/lnroot -> tbl, <ws>/wh/tbl2, <ws>/out; rebuilt on demand."""
 
-    def __init__(self, ws: str, with_table: bool = False, spec_fn: Optional[Callable[[str], pathfs.Spec]] = None):
+    def __init__(self, ws: str, with_table: bool = False, spec_fn: Optional[Callable[[str], pathfs.Spec]] = None,
+                 post_build: Optional[Callable[["Workspace"], None]] = None):
+        self.post_build = post_build
         self.ws = os.path.realpath(ws) if os.path.exists(ws) else ws
         os.makedirs(self.ws, exist_ok=True)
         self.ws = os.path.realpath(self.ws)
@@ -48,6 +50,12 @@ class Workspace:
                 self.table_snapshot = self._snapshot_root()
             else:
                 self._restore_root()
+        if self.post_build is not None:
+            self.post_build(self)
+        self.rebaseline()
+
+    def rebaseline(self) -> None:
+        """Take the tree as it is now (e.g. after a history's arrangement change) as the reference state."""
         self.pristine_inside = self._inside_stat()
         self.pristine_outside = self.outside_stat()
 
@@ -294,7 +302,7 @@ def run_case(wsp: Workspace, judge: Judge, audit: Audit, entry: str, fn: Callabl
 
 
 def _run_case(wsp: Workspace, judge: Judge, audit: Audit, entry: str, fn: Callable[[], Any], p: str, base_kind: str,
-              absolute_capable: bool) -> Tuple[str, List[Dict[str, Any]]]:
+              absolute_capable: bool, restore: bool = True) -> Tuple[str, List[Dict[str, Any]]]:
     esc = judge.escapes(p, absolute_capable)
     case = {"entry": entry, "path": p, "base": base_kind, "workspace": wsp.ws, "arrangement": wsp.arrangement}
     status, val = bounded.get_guard().run(f"{entry}({p!r})", case, lambda: audit.record(fn))
@@ -313,7 +321,7 @@ def _run_case(wsp: Workspace, judge: Judge, audit: Audit, entry: str, fn: Callab
     bad = judge.touches_outside(events)
     if bad:
         problems.append({"rule": "touch", "entry": entry, "path": p, "base": base_kind, "outcome": outcome, "touched": bad[:4]})
-    if entry.startswith("list_files") and isinstance(res, list):
+    if "list_files" in entry and isinstance(res, list):
         # what a listing RETURNS: every name, joined to the root, must be an entry under the root
         foreign = []
         for r in res:
@@ -327,8 +335,11 @@ def _run_case(wsp: Workspace, judge: Judge, audit: Audit, entry: str, fn: Callab
         if after != wsp.pristine_outside:
             problems.append({"rule": "sentinel", "entry": entry, "path": p, "base": base_kind, "outcome": outcome,
                              "changed": pathfs.fingerprint_diff(wsp.pristine_outside, after)[:4]})
-        wsp.rebuild_all()
-    elif wsp.inside_dirty():
+        if restore:
+            wsp.rebuild_all()
+        else:
+            wsp.pristine_outside = after       # inside a history: later steps are judged against the state they start from
+    elif restore and wsp.inside_dirty():
         wsp.rebuild_root()
     if esc and exc is None and status != "runaway":
         problems.append({"rule": "reject", "entry": entry, "path": p, "base": base_kind, "outcome": outcome,
@@ -405,3 +416,137 @@ def tamper(root: str, what: str, p: str) -> None:
             json.dump({"file_path": p}, f)
         return
     raise ValueError(what)
+
+
+# ---------------------------------------------------------------------------------------- histories
+# The arrangement CHANGES between two uses of the same string through the same long-lived handle.
+def _shadow(wsp: Workspace) -> None:
+    """Outside copies of the root's directories: what an outward link put in their place leads to (same names inside,
+    so that a read through the link SUCCEEDS and really returns foreign content)."""
+    for name in ("data", "metadata"):
+        src = os.path.join(wsp.root, name)
+        dst = os.path.join(wsp.ws, "out", "shadow_" + name)
+        if os.path.isdir(src) and not os.path.lexists(dst):
+            shutil.copytree(src, dst, symlinks=True)
+
+
+def history_workspace(ws: str, with_table: bool) -> Workspace:
+    return Workspace(ws, with_table=with_table, spec_fn=pathfs.acyclic_spec, post_build=_shadow)
+
+
+def _swap_for_link(path: str, target: str) -> None:
+    if os.path.lexists(path):
+        os.rename(path, path + ".moved-aside")
+    os.symlink(target, path)
+
+
+def mutate(wsp: Workspace, name: str) -> None:
+    """Arrangement changes inside the root (the root itself and everything outside keep their content)."""
+    r, out = wsp.root, os.path.join(wsp.ws, "out")
+    if name == "dir->outlink:data":
+        _swap_for_link(os.path.join(r, "data"), os.path.join(out, "shadow_data"))
+    elif name == "dir->outlink:metadata":
+        _swap_for_link(os.path.join(r, "metadata"), os.path.join(out, "shadow_metadata"))
+    elif name == "subdir->outlink:data/part":
+        _swap_for_link(os.path.join(r, "data", "part"), os.path.join(out, "shadow_data", "part"))
+    elif name == "dir->siblinglink:data":
+        _swap_for_link(os.path.join(r, "data"), "../" + pathfs.SIB_NAME + "/data")
+    elif name == "files->outlinks:data":
+        # every regular file directly in data/ becomes a link to its outside copy
+        d = os.path.join(r, "data")
+        for n in sorted(os.listdir(d)):
+            p = os.path.join(d, n)
+            if os.path.isfile(p) and not os.path.islink(p):
+                _swap_for_link(p, os.path.join(out, "shadow_data", n))
+    elif name == "outlink->dir:data/ext":
+        # the reverse direction: a rejected outward link becomes a real directory (a cached REJECTION would be stale too)
+        p = os.path.join(r, "data", "ext")
+        os.remove(p)
+        os.makedirs(p)
+        with open(os.path.join(p, "secret.txt"), "wb") as f:
+            f.write(b"NOW-INSIDE")
+    else:
+        raise ValueError(name)
+    wsp.rebaseline()
+
+
+MUTATIONS = ["dir->outlink:data", "files->outlinks:data", "subdir->outlink:data/part", "dir->siblinglink:data", "dir->outlink:metadata",
+             "outlink->dir:data/ext"]
+
+
+def table_ops() -> Dict[str, Callable[[Any], Any]]:
+    """Operations of one long-lived Table object."""
+    def batches(t: Any) -> Any:
+        return sum(b.num_rows for b in t.scan_batches(verify_checksums=False))
+
+    def records(t: Any) -> Any:
+        return sum(1 for _ in t.iter_records(verify_checksums=False))
+    return {
+        "scan": lambda t: len(t.scan()),
+        "scan_noverify": lambda t: len(t.scan(verify_checksums=False)),
+        "scan_filter_noverify": lambda t: len(t.scan(filter={"k": (">", 0)}, verify_checksums=False)),
+        "scan_batches_noverify": batches,
+        "iter_records_noverify": records,
+        "row_count": lambda t: t.row_count(),
+        "append_records": lambda t: t.append_records([{"k": 9}]),
+        "garbage_collect": lambda t: t.garbage_collect(grace_period_ms=0),
+        "refresh": lambda t: t.refresh(),
+    }
+
+
+def make_handle(kind: str, base: str) -> Any:
+    if kind == "storage":
+        from datashard.storage_backend import LocalStorageBackend
+        return LocalStorageBackend(base)
+    if kind == "dfm":
+        return make_dfm(base)
+    if kind == "table":
+        from datashard import load_table
+        return load_table(base)
+    raise ValueError(kind)
+
+
+def handle_call(kind: str, handle: Any, entry: str, p: str) -> Callable[[], Any]:
+    if kind == "storage":
+        f = storage_entry_points()[entry]
+        return lambda: f(handle, p)
+    if kind == "dfm":
+        f = dfm_entry_points()[entry]
+        return lambda: f(handle, p)
+    f2 = table_ops()[entry]
+    return lambda: f2(handle)
+
+
+def run_history(wsp: Workspace, judge: Judge, audit: Audit, kind: str, base_kind: str, steps: Sequence[Sequence[str]]) -> Tuple[List[str], List[Dict[str, Any]]]:
+    """steps: ["call", entry, path] | ["mutate", name].  ONE handle for the whole history.  Every call is judged like a
+    single audited call, against the arrangement current at that moment.  The workspace is rebuilt afterwards."""
+    base = wsp.root if base_kind == "direct" else wsp.lnroot
+    outcomes: List[str] = []
+    problems: List[Dict[str, Any]] = []
+    status, handle = bounded.get_guard().run(f"open {kind} handle", {"entry": f"history:{kind}", "path": "", "base": base_kind}, lambda: make_handle(kind, base), soft_s=20)
+    if status != "ok":
+        wsp.rebuild_all()
+        return [f"handle:{status}"], ([{"rule": "runaway", "entry": f"history:{kind}:open", "path": "", "base": base_kind, "outcome": "runaway", "why": handle,
+                                        "os_calls_before_the_limit": 0, "arrangement": wsp.arrangement}] if status == "runaway" else [])
+    try:
+        for i, st in enumerate(steps):
+            if st[0] == "mutate":
+                mutate(wsp, st[1])
+                outcomes.append("mutated")
+                continue
+            _c, entry, p = st
+            p = p.replace("<ws>", wsp.ws)
+            o, prs = _run_case(wsp, judge, audit, f"history:{kind}:{entry}", handle_call(kind, handle, entry, p), p, base_kind,
+                               absolute_capable=(kind != "storage"), restore=False)
+            if kind == "table" or entry in ("delete_file",):
+                prs = [pr for pr in prs if pr["rule"] != "reject"]
+            outcomes.append(o)
+            for pr in prs:
+                pr["step"] = i
+                problems.append(pr)
+    finally:
+        wsp.rebuild_all()
+    for pr in problems:
+        pr["history"] = {"handle": kind, "base": base_kind, "steps": [list(s) for s in steps], "outcomes": list(outcomes)}
+        pr["workspace"] = wsp.ws
+    return outcomes, problems
